@@ -47,12 +47,14 @@ def plan(tier):
     rm = ("sw-rm", "f16c-rm")
     thorough = tier == "thorough"
     # 1. cheap and essential: all 2^16-functions, reference self-test, information-only conversions, sanitizer sub-alphabet
-    jobs += [("unary", ["--mode", "unary"], both), ("selftest", ["--mode", "selftest"], both), ("info", ["--mode", "info"], ("sw",))]
-    jobs += [("san-unary", ["--mode", "unary", "--set", "s"], ("san",)),
+    jobs += [("unary", ["--mode", "unary"], both), ("nanfam", ["--mode", "nanfam"], both), ("selftest", ["--mode", "selftest"], both), ("info", ["--mode", "info"], ("sw",))]
+    jobs += [("san-nanfam", ["--mode", "nanfam"], ("san",)),
+             ("san-unary", ["--mode", "unary", "--set", "s"], ("san",)),
              ("san-pairs", ["--mode", "pairs", "--set", "s"], ("san",)),
              ("san-fma", ["--mode", "fma", "--alpha", "s"], ("san",)),
              ("san-fmad", ["--mode", "fmad", "--alpha", "s"], ("san",))]
     jobs += [("unary@%s" % m, ["--fenv", m, "--mode", "unary"], rm) for m in FENV_MODES]
+    jobs += [("nanfam@%s" % m, ["--fenv", m, "--mode", "nanfam"], rm) for m in FENV_MODES]
     # 2. default rounding mode: pairs, fma, the float sweep
     if thorough:
         n = 128
@@ -173,7 +175,11 @@ def locate_path_difference(ctx, bins, args, stream, sub):
             raise vlib.HarnessError("could not map index %d of stream %s back to its operands" % (idx, stream))
         n = max(1, int(nth[0]["n"]))
         ops = [nth[0]["a"], nth[0]["b"], nth[0]["c"]][:n]
-        if stream.startswith("float2half"):
+        if stream.startswith("double2half"):
+            ops = [nth[0]["a64"]]
+            m = int(ops[0], 16) & ((1 << 52) - 1)
+            cls = "inf" if m == 0 else "nan"
+        elif stream.startswith("float2half"):
             cls = fclass(int(ops[0], 16))
         else:
             cls = ",".join(hclass(int(o, 16)) for o in ops)
@@ -282,7 +288,7 @@ def run(ctx):
     ctx.stats["evaluations"] = sum(v for k, v in ctx.stats.items() if k.startswith("evaluations_"))
     ctx.stats["distinct_nontrivial"] = ctx.stats.get("nontrivial_sw", 0)   # default mode, software build: every case once
     ctx.stats["evaluations_under_directed_rounding_modes"] = sum(v for k, v in ctx.stats.items() if k.startswith("evaluations_") and "[FE_" in k)
-    order = ["float2half", "pair", "fma", "sqrt"]
+    order = ["float2half", "pair", "fma", "sqrt", "nanfam"]
     i = 0
     while len(ctx.samples) < 12 and any(samples.get(k) for k in order):
         k = order[i % len(order)]
@@ -298,7 +304,9 @@ def run(ctx):
            "+ - * /, == != < > <= >=, copysign and hash-of-equal-values on the pair set {(a,b): a in A512, b any} u {a in A4096, b in A4096} u {a any, b in A512} (A4096 = sign x every exponent field x 64 boundary mantissas, A512 = sign x every exponent x {0,1,2,0x1FF,0x200,0x201,0x3FE,0x3FF}; both contain +-0, subnormals, +-inf, quiet and signalling NaNs); ")
         + ("fma on all triples over the 1024-value alphabet (sign x every exponent x 16 mantissas) and, for every pair (x,y) with x or y in A4096, on the 6 tie-breaking z {+-0, +-2^-24, +-2^-14} and the up to 8 z within 2 ulp of -round(x*y) / 1 ulp of +round(x*y) (massive cancellation). " if thorough else
            "fma on all triples over A512 and, for every pair (x,y) in A4096^2 with x or y in A512, on the 6 tie-breaking z {+-0, +-2^-24, +-2^-14} and the up to 8 z within 2 ulp of -round(x*y) / 1 ulp of +round(x*y) (massive cancellation). ")
-        + "Dynamic rounding mode (owned by the harness): the complete float->half sweep, all the 2^16-functions, and + - * / , comparisons, copysign on the quick pair set and fma on A512^3 and the quick derived family are repeated in both paths "
+        + "NaN/infinity boundary family (judged: NaN stays a NaN with its sign, infinity stays that infinity): for double->half (half_cast<half>(double), half_cast<half,round_to_nearest>(double), half(double), operator=(double)) and float->half (constructor, operator=, half_cast), "
+        "both signs x exponent all ones x {0, every single mantissa bit, every pair of mantissa bits, low-word-only / high-word-only / mixed payloads with the quiet bit off and on, all-ones patterns}: 3244 doubles and 588 floats, in every build and under every rounding mode. "
+        "Dynamic rounding mode (owned by the harness): the complete float->half sweep, all the 2^16-functions, and + - * / , comparisons, copysign on the quick pair set and fma on A512^3 and the quick derived family are repeated in both paths "
         "(builds with -frounding-math) after fesetround(FE_UPWARD), FE_DOWNWARD and FE_TOWARDZERO (set once per shard, verified to be in effect on float and double arithmetic, restored at the end); the expected bits are the same round-to-nearest-even bits and the sw/F16C digests must agree under each mode. "
         "evaluations = judged implementation results over all builds and modes. distinct_nontrivial = distinct (function, operand tuple) cases of the software build (each enumerated exactly once) whose exact real result is NOT a binary16 value and whose correctly rounded result is finite and non-zero, "
         "or is infinity although |exact| < 2^16 (default rounding mode only; the repetitions under the three directed modes are the same operand tuples and are not counted again) - i.e. the guard/sticky/tie logic decided the answer (float->half counted once per float, not per entry point; conversions from half, comparisons, classification and hash have no such notion and are not counted).")
@@ -306,7 +314,7 @@ def run(ctx):
         "the exact integer reference refs/C08_half_ref.hpp is trusted; it is cross-checked on every run against double arithmetic (exact for + - *, innocuous double rounding for / and sqrt, TwoSum + round-to-odd for fma), against an ldexp construction for conversions, and - through the F16C build - against the hardware conversion on all 2^32 floats",
         "NaN results are compared as 'is a NaN' (payload and, except for unary minus/fabs/copysign, sign of a NaN result are not judged); the software half->float path keeps signalling NaNs signalling while the hardware quiets them - reported as a note, not a violation",
         "isnormal and fpclassify are judged by the binary16 class of the operand (a subnormal half is a normal float, so the float functions cannot be the oracle there); isfinite/isinf/isnan/signbit agree with both",
-        "double->half, integer<->half (half_cast, converting constructor from wider types) are enumerated on boundary values and reported as notes only - the statement does not claim them",
+        "double->half: judged only on the NaN/infinity boundary family (NaN-to-NaN with the sign kept, infinity preserved); the ROUNDING of finite doubles and integer<->half conversions are enumerated on boundary values and reported as notes only - the statement does not claim them and the converting constructor documents double rounding through float",
         "fma: the 2^48 triples are not exhausted; the claim is exactly the two stated families",
         "dynamic rounding mode: the reference is integer arithmetic and does not depend on it; the double-based self-test and the information-only conversions run under FE_TONEAREST only; the shards under a directed mode use separate builds compiled with -frounding-math",
         "exception flags/errno (HALF_ERRHANDLING_*), rounding styles other than the default round-to-nearest, the mixed half/arithmetic-type operator templates, compound assignment and stream I/O are outside this check",
